@@ -2537,4 +2537,122 @@ theorem WC.inner {T : DS} {colsW : List Column} (tgt : Column) (tp : DS × Strin
       (fun x hx => hs x (by simp [hx])) hf
 
 
+/-- one select item when `write_columns` has as many entries as the group has items: its sources are wired to the write
+    column AT THE ITEM'S POSITION -/
+theorem cleanupItem_pos {g1 g : LGraph} {K : List (Node × Node)} (imp : String) (T : DS) (Tp : String) (n : Nat)
+    (tabs : List DObj) (c : ColSpec) (idx k : Nat) (srcs : List Column) (tgt : Column) (keysW : List Node) (h : Wired g1 g K)
+    (hsrc : toSourceColumns imp (aliasMapping g tabs) c k = srcs) (hok : ∀ s ∈ srcs, colOK s)
+    (hwc : writeColumns g = keysW) (hlen : keysW.length = n) (hidx : keysW[idx]? = some tgt.key)
+    (hcol : colOf g tgt.key = some tgt) (htp : tgt.parent? = some (T, Tp)) (htok : colOK tgt) :
+    ∃ g', cleanupItem imp (T, Tp) n tabs g (c, idx) k = .ok g' ∧
+      srcs.foldlM (fun g s => addColumnLineage g s tgt) g = .ok g' ∧
+      Wired g1 g' (K ++ srcs.map (fun s => (s.key, tgt.key))) := by
+  obtain ⟨g', hg', hw⟩ := wired_inner (g1 := g1) tgt (T, Tp) htp htok srcs g K h hok
+  refine ⟨g', ?_, hg', hw⟩
+  unfold cleanupItem
+  have hl : ((writeColumns g).length == n) = true := by rw [hwc, hlen]; simp
+  have hl' : (keysW.length == n) = true := by rw [hlen]; simp
+  simp only [hsrc, hl, if_true, hwc, hidx, hcol, Option.getD_some, hl']
+  cases srcs with
+  | nil =>
+    simp only [List.foldlM_nil, pure, Except.pure] at hg'
+    simp only [List.isEmpty_nil, if_true]
+    exact hg'
+  | cons s r =>
+    simp only [List.isEmpty_cons, Bool.false_eq_true, if_false]
+    exact hg'
+
+/-- the pairs of a group wired by position: item `c` goes to the write column `w` it is zipped with -/
+def posPairs (KEYS : ColSpec → List Node) (l : List (ColSpec × Column)) : List (Node × Node) :=
+  l.flatMap (fun cw => (KEYS cw.1).map (fun x => (x, cw.2.key)))
+
+/-- the loop over the select items when the target owns the `n` columns `colsW` from the start and nothing else (it is
+    not read, no source column belongs to it) -/
+theorem cleanupFoldPos_wired {g1 : LGraph} (imp : String) (s nm : String) (n : Nat) (tabs : List DObj) (k : Nat)
+    (KEYS : ColSpec → List Node) (colsW : List Column) (hn : colsW.length = n)
+    (hws : writeSet g1 = [.table s nm]) (hnr : DS.table s nm ∉ readSet g1)
+    (hcw : ∀ c ∈ colsW, c.parent? = some (DS.table s nm, s ++ "." ++ nm) ∧ colOK c) :
+    ∀ (rest : List ColSpec) (restW preW : List Column) (g : LGraph) (K : List (Node × Node)),
+      colsW = preW ++ restW → rest.length = restW.length → Wired g1 g K → WC (.table s nm) colsW g →
+      (∀ c ∈ rest, ∀ g, Frame g1 g →
+        (∀ x, x ∈ (toSourceColumns imp (aliasMapping g tabs) c k).map (·.key) ↔ x ∈ KEYS c) ∧
+        (∀ y ∈ toSourceColumns imp (aliasMapping g tabs) c k,
+          colOK y ∧ ∀ sp, y.parent? = some sp → sp.1 ≠ .table s nm)) →
+      ∃ g', (rest.zipIdx preW.length).foldlM
+          (fun g ci => cleanupItem imp (.table s nm, printedDS g (.table s nm)) n tabs g ci k) g = .ok g' ∧
+        Wired g1 g' (K ++ posPairs KEYS (rest.zip restW))
+  | [], restW, preW, g, K, _, _, h, _, _ => ⟨g, rfl, by simpa [posPairs] using h⟩
+  | c :: r, [], preW, g, K, _, hl, _, _, _ => by simp at hl
+  | c :: r, w :: rw, preW, g, K, hsplit, hl, h, hwc, hsrc => by
+    have hw : writeSet g = [.table s nm] := by unfold writeSet; rw [tagSet_eq_of_frame h.frame]; exact hws
+    have hrd : readSet g = readSet g1 := by unfold readSet; rw [tagSet_eq_of_frame h.frame]
+    have htt := targetTable_of g _ hw (by rw [hrd]; exact hnr)
+    obtain ⟨hkeys, hys⟩ := hsrc c (by simp) g h.frame
+    have hwin : w ∈ colsW := by rw [hsplit]; simp
+    have hety : ∀ x ∈ colsW.map (·.key), g.ety (.ds (.table s nm)) x = some .hasColumn := by
+      intro x hx
+      have he : (Node.ds (DS.table s nm), x) ∈ g.edges := (mem_outEdges g _ _).mp (by rw [hwc.out]; exact hx)
+      rw [h.ty _ _ he]
+      obtain ⟨c', _, rfl⟩ := List.mem_map.mp hx
+      rfl
+    have hwcs := hwc.writeColumns htt hety
+    have hidx : (colsW.map (·.key))[preW.length]? = some w.key := by
+      rw [hsplit]
+      simp [List.getElem?_append_right]
+    have hcol : colOf g w.key = some w := by
+      unfold colOf; rw [hwc.pay w hwin]
+    obtain ⟨g', hg', hfold, hw'⟩ := cleanupItem_pos imp (.table s nm) (s ++ "." ++ nm) n tabs c preW.length k _ w
+      (colsW.map (·.key)) h rfl (fun y hy => (hys y hy).1) hwcs (by rw [List.length_map]; exact hn) hidx hcol
+      (hcw w hwin).1 (hcw w hwin).2
+    have hwc' : WC (.table s nm) colsW g' :=
+      WC.inner w (.table s nm, s ++ "." ++ nm) (hcw w hwin).1 rfl (List.mem_map.mpr ⟨w, hwin, rfl⟩) _ g g' hwc
+        (fun y hy => (hys y hy).2) hfold
+    obtain ⟨g'', hg'', hw''⟩ := cleanupFoldPos_wired imp s nm n tabs k KEYS colsW hn hws hnr hcw r rw (preW ++ [w]) g' _
+      (by rw [hsplit]; simp) (by simpa using hl) hw' hwc' (fun c' hc' => hsrc c' (by simp [hc']))
+    refine ⟨g'', ?_, hw''.congr ?_⟩
+    · simp only [List.zipIdx_cons, List.foldlM_cons, bind, Except.bind]
+      have : cleanupItem imp (.table s nm, printedDS g (.table s nm)) n tabs g (c, preW.length) k = .ok g' := hg'
+      rw [this]
+      have hlen : (preW ++ [w]).length = preW.length + 1 := by simp
+      rw [hlen] at hg''
+      exact hg''
+    · intro x
+      simp only [posPairs, List.zip_cons_cons, List.flatMap_cons, List.mem_append, List.mem_map]
+      constructor
+      · rintro ((h1 | ⟨y, hy, rfl⟩) | h1)
+        · exact Or.inl h1
+        · exact Or.inr (Or.inl ⟨y.key, (hkeys _).mp (List.mem_map.mpr ⟨y, hy, rfl⟩), rfl⟩)
+        · exact Or.inr (Or.inr h1)
+      · rintro (h1 | ⟨a, ha, rfl⟩ | h1)
+        · exact Or.inl (Or.inl h1)
+        · obtain ⟨y, hy, hyk⟩ := List.mem_map.mp ((hkeys a).mpr ha)
+          exact Or.inl (Or.inr ⟨y, hy, by rw [hyk]⟩)
+        · exact Or.inr h1
+
+/-- `end_of_query_cleanup` of ONE select block on a holder whose target owns the columns `colsW`, as many as there are
+    select items -/
+theorem endOfQueryCleanupPos_wired (imp : String) (g : LGraph) (s nm : String) (tabs : List DObj) (cols : List ColSpec)
+    (k : Nat) (KEYS : ColSpec → List Node) (colsW : List Column) (hn : cols.length = colsW.length)
+    (hb : ReadBase (tabs.foldl addReadO g) tabs (.table s nm)) (hself : ∀ o ∈ tabs, o.d ≠ .table s nm)
+    (hwc : WC (.table s nm) colsW (tabs.foldl addReadO g))
+    (hcw : ∀ c ∈ colsW, c.parent? = some (DS.table s nm, s ++ "." ++ nm) ∧ colOK c)
+    (hsrc : ∀ c ∈ cols, ∀ g', Frame (tabs.foldl addReadO g) g' →
+      (∀ x, x ∈ (toSourceColumns imp (aliasMapping g' tabs) c k).map (·.key) ↔ x ∈ KEYS c) ∧
+      (∀ y ∈ toSourceColumns imp (aliasMapping g' tabs) c k, colOK y ∧ ∀ sp, y.parent? = some sp → sp.1 ≠ .table s nm)) :
+    ∃ g2, endOfQueryCleanup imp g tabs cols [] k = .ok g2 ∧
+      Wired (tabs.foldl addReadO g) g2 (posPairs KEYS (cols.zip colsW)) := by
+  obtain ⟨g2, hg2, hw⟩ := cleanupFoldPos_wired imp s nm cols.length tabs k KEYS colsW hn.symm hb.writeSet
+    (hb.notRead hself) hcw cols colsW [] (tabs.foldl addReadO g) [] rfl hn (Wired.base hb) hwc hsrc
+  refine ⟨g2, ?_, by simpa using hw⟩
+  unfold endOfQueryCleanup
+  simp only [List.nil_append, endOfQueryCleanup.go, slice_full]
+  unfold cleanupGroup
+  rw [hb.writeSet]
+  simp only
+  have hg2' : (cols.zipIdx).foldlM
+      (fun g ci => cleanupItem imp (.table s nm, printedDS g (.table s nm)) cols.length tabs g ci k)
+      (tabs.foldl addReadO g) = .ok g2 := by simpa using hg2
+  rw [hg2']
+
+
 end SqlLineage.ColumnsExact
